@@ -158,6 +158,12 @@ func stopRunningDAG(e client.Client, workflow *dag.DAG) error {
 		}
 
 		if err := e.Stop(workflow); err != nil {
+			// The run may have ended between the status query and the
+			// stop request: its socket is gone then, which is not an error.
+			st, serr := e.GetCurrentStatus(workflow)
+			if serr == nil && st.Status != scheduler.StatusRunning {
+				return nil
+			}
 			return err
 		}
 
